@@ -1,6 +1,7 @@
 package exec
 
 import (
+	"os"
 	"path/filepath"
 	"strings"
 
@@ -21,9 +22,11 @@ type fsEnt struct {
 }
 
 type fsFile struct {
-	ent    *fsEnt
-	path   string
-	closed bool
+	pos        int // write offset
+	appendMode bool
+	ent        *fsEnt
+	path       string
+	closed     bool
 }
 
 type fsScanner struct {
@@ -139,6 +142,38 @@ func init() {
 		m.natives[f] = m.newNative("file", &fsFile{ent: e, path: p})
 		return Tuple{f, Iface{}}
 	}
+	natives["os.OpenFile"] = func(m *Machine, c *frame, fn *ssa.Function, a []Value) Value {
+		// OpenFile(name, flag, perm) with concrete flags: O_CREATE, O_TRUNC, O_APPEND, O_EXCL
+		p := m.fsPath(a[0], "os.OpenFile")
+		ft := m.term(a[1])
+		if !ft.Const {
+			m.unsupported("os.OpenFile with symbolic flags")
+		}
+		flags := int(ft.SInt())
+		e := m.fsGet(p)
+		if m.branch(e.exists) {
+			if flags&os.O_CREATE != 0 && flags&os.O_EXCL != 0 {
+				return Tuple{(*Value)(nil), m.newErrorString(sym.Str("open " + p + ": file exists"))}
+			}
+		} else {
+			if flags&os.O_CREATE == 0 {
+				return Tuple{(*Value)(nil), m.errNotExistValue()}
+			}
+			e.exists, e.isFile, e.text = sym.True(), true, ""
+		}
+		if flags&os.O_TRUNC != 0 {
+			e.text = ""
+		}
+		ff := &fsFile{ent: e, path: p}
+		if flags&os.O_APPEND != 0 {
+			ff.appendMode = true
+		}
+		f := new(Value)
+		*f = zero(m.eng.nativeType("os.File"))
+		m.natives[f] = m.newNative("file", ff)
+		m.event("fs: OpenFile %s flags=%#x", p, flags)
+		return Tuple{f, Iface{}}
+	}
 	natives["(*os.File).Close"] = func(m *Machine, c *frame, fn *ssa.Function, a []Value) Value { return Iface{} }
 	natives["(*os.File).Write"] = func(m *Machine, c *frame, fn *ssa.Function, a []Value) Value {
 		n := m.natives[a[0].(*Value)]
@@ -155,7 +190,19 @@ func init() {
 			}
 			buf[i] = byte(t.U)
 		}
-		f.ent.text += string(buf)
+		// a write goes to the file offset (the end in append mode) and overwrites what is there
+		txt := f.ent.text
+		if f.appendMode || f.pos > len(txt) {
+			f.pos = len(txt)
+		}
+		end := f.pos + len(buf)
+		if end > len(txt) {
+			txt = txt[:f.pos] + string(buf)
+		} else {
+			txt = txt[:f.pos] + string(buf) + txt[end:]
+		}
+		f.ent.text = txt
+		f.pos = end
 		return Tuple{sym.BVConst(64, uint64(len(bs))), Iface{}}
 	}
 	natives["bufio.NewScanner"] = func(m *Machine, c *frame, fn *ssa.Function, a []Value) Value {
@@ -201,7 +248,9 @@ func (e *Engine) fsIntrinsic(name string) stubFn {
 			return nil
 		}
 	case "vrf_fs_exists":
-		return func(m *Machine, c *frame, fn *ssa.Function, a []Value) Value { return m.fsGet(m.fsPath(a[0], name)).exists }
+		return func(m *Machine, c *frame, fn *ssa.Function, a []Value) Value {
+			return m.fsGet(m.fsPath(a[0], name)).exists
+		}
 	case "vrf_fs_id":
 		return func(m *Machine, c *frame, fn *ssa.Function, a []Value) Value { return m.fsGet(m.fsPath(a[0], name)).id }
 	case "vrf_fs_put_file": // (path, text string)
@@ -211,7 +260,9 @@ func (e *Engine) fsIntrinsic(name string) stubFn {
 			return nil
 		}
 	case "vrf_fs_text":
-		return func(m *Machine, c *frame, fn *ssa.Function, a []Value) Value { return sym.Str(m.fsGet(m.fsPath(a[0], name)).text) }
+		return func(m *Machine, c *frame, fn *ssa.Function, a []Value) Value {
+			return sym.Str(m.fsGet(m.fsPath(a[0], name)).text)
+		}
 	}
 	return nil
 }
